@@ -121,6 +121,9 @@ func cmdCheck(args []string) int {
 	lemmas := lemmasFor(db, prop)
 	lemmas = append(lemmas, sideCondsFor(db, prop)...)
 	lemmas = append(lemmas, leanLemmasFor(prop)...)
+	if *tier == "thorough" {
+		lemmas = append(lemmas, witnessChecksFor(w, roots)...)
+	}
 	if len(roots) == 0 && len(lemmas) == 0 {
 		fmt.Fprintf(os.Stderr, "govc: no contract mentions property %s\n", prop)
 		return 2
@@ -265,7 +268,10 @@ func report(run *propRun, w *World, db *ContractDB) int {
 			"status": ob.Status, "solver": ob.Solver, "solver_output": ob.Model, "goal": ob.Goal}
 		suffix := " no-failing-input-found"
 		replays++
-		if replays > 12 {
+		if ob.Kind == "witness" {
+			suffix = ""
+			rep["replayed"] = "the scenario fails on the tree under check (output in solver_output)"
+		} else if replays > 12 {
 			// (a change that breaks many obligations at once: the first dozen get a replay attempt, the rest only the solver output)
 			rep["replay_attempt"] = "replay budget of 12 attempts per check used up"
 		} else if ok, detail := tryReplay(w, ob, rep); ok {
